@@ -3,8 +3,9 @@
 //
 //	lin run <out.ndjson> <nhist> <profile>     env VERIF_SEED
 //
-// profile: "conc" (3-4 clients, 3-5 ops), "small" (3 clients, 3-4 ops), "seq" (1 client: calibrates
-// the sequential model), "inc" (increment/patch heavy: lost-update hunting).
+// profile: "conc" (3-4 clients, 3-5 ops, every kind of request), "small" (3 clients, 3-4 ops),
+// "seq" (1 client: calibrates the sequential model), "counter"/"counter3" (increments, patches,
+// unconditional sets and gets only: lost-update hunting).
 //
 // Every history runs on a fresh swamp in one of three configurations (persistent + write interval 0,
 // persistent + write interval > 0, in-memory); the three are cycled.  An anchor key keeps the swamp
@@ -300,14 +301,16 @@ func retRec(h int, p string, seq int, o op, r res) map[string]any {
 type profile struct {
 	minClients, maxClients int
 	minOps, maxOps         int
-	incHeavy               bool
+	counter                bool // only increments / patches / unconditional sets / gets: no request whose
+	// non-atomicity is a known finding, so every non-linearizable history is a violation
 }
 
 var profiles = map[string]profile{
-	"conc":  {3, 4, 3, 5, false},
-	"small": {3, 3, 3, 4, false},
-	"seq":   {1, 1, 6, 12, false},
-	"inc":   {3, 4, 3, 5, true},
+	"conc":     {3, 4, 3, 5, false},
+	"small":    {3, 3, 3, 4, false},
+	"seq":      {1, 1, 6, 12, false},
+	"counter":  {3, 4, 3, 5, true},
+	"counter3": {3, 3, 3, 4, true},
 }
 
 func genOp(rng *rand.Rand, k string, client, idx int, pf profile) op {
@@ -325,8 +328,9 @@ func genOp(rng *rand.Rand, k string, client, idx int, pf profile) op {
 		return o
 	}
 	wInc, wSet, wDel, wShift := 40, 20, 12, 10
-	if pf.incHeavy {
-		wInc, wSet, wDel, wShift = 70, 8, 5, 5
+	if pf.counter {
+		wInc, wSet, wDel, wShift = 62, 13, 0, 0
+		mkSet = func(ty string) op { return op{Op: "set", K: k, A: uniq, Ty: ty, Cr: 1, Ow: 1} }
 	}
 	if k == "k1" {
 		switch {
